@@ -173,8 +173,8 @@ Proof.
   intros [] H; [exact tables_ok_bare | exact tables_ok_std | exact tables_ok_bin | discriminate H].
 Qed.
 
-Lemma pure_true : forall f, pure f = true -> effect_of f = [].
-Proof. intros f. unfold pure. destruct (effect_of f); [reflexivity | discriminate]. Qed.
+Lemma pure_true : forall c f, pure c f = true -> effect_of c f = [].
+Proof. intros c f. unfold pure. destruct (effect_of c f); [reflexivity | discriminate]. Qed.
 
 Lemma mem_In : forall s l, mem s l = true -> In s l.
 Proof.
@@ -183,8 +183,8 @@ Proof.
 Qed.
 
 Lemma tables_ok_parts : forall c, tables_ok c = true ->
-  forallb (binding_ok c) (bindings c) = true /\ forallb special_ok special_forms = true /\
-  forallb binding_pure implicit_prims = true /\ forallb pure vm_core = true.
+  forallb (binding_ok c) (bindings c) = true /\ forallb (special_ok c) special_forms = true /\
+  forallb (binding_pure c) implicit_prims = true /\ forallb (pure c) vm_core = true.
 Proof.
   intros c H. unfold tables_ok in H.
   apply andb_prop in H. destruct H as [H1 H]. apply andb_prop in H. destruct H as [H2 H].
@@ -192,7 +192,7 @@ Proof.
 Qed.
 
 Theorem sandbox_tables_pure_except : forall c n k f, sandboxed c = true ->
-  In (n, k, f) (bindings c) -> k <> KValue -> effect_of f <> [] -> In n (known_leak_bindings c).
+  In (n, k, f) (bindings c) -> k <> KValue -> effect_of c f <> [] -> In n (known_leak_bindings c).
 Proof.
   intros c n k f Hs Hin Hk He.
   destruct (tables_ok_parts c (tables_ok_sandboxed c Hs)) as [H1 _].
@@ -204,21 +204,21 @@ Proof.
     + apply mem_In. exact H1.
 Qed.
 
-Theorem special_forms_pure_except : forall n f,
-  In (n, f) special_forms -> effect_of f <> [] -> In n known_leak_specials.
+Theorem special_forms_pure_except : forall c n f, sandboxed c = true ->
+  In (n, f) special_forms -> effect_of c f <> [] -> In n known_leak_specials.
 Proof.
-  intros n f Hin He.
-  destruct (tables_ok_parts Bare tables_ok_bare) as [_ [H2 _]].
+  intros c n f Hs Hin He.
+  destruct (tables_ok_parts c (tables_ok_sandboxed c Hs)) as [_ [H2 _]].
   rewrite forallb_forall in H2. specialize (H2 _ Hin). unfold special_ok in H2. simpl in H2.
   apply orb_prop in H2. destruct H2 as [H2|H2].
   - exfalso. apply He. apply pure_true. exact H2.
   - apply mem_In. exact H2.
 Qed.
 
-Theorem implicit_prims_pure : forall n k f, In (n, k, f) implicit_prims -> effect_of f = [].
+Theorem implicit_prims_pure : forall c n k f, sandboxed c = true -> In (n, k, f) implicit_prims -> effect_of c f = [].
 Proof.
-  intros n k f Hin.
-  destruct (tables_ok_parts Bare tables_ok_bare) as [_ [_ [H3 _]]].
+  intros c n k f Hs Hin.
+  destruct (tables_ok_parts c (tables_ok_sandboxed c Hs)) as [_ [_ [H3 _]]].
   rewrite forallb_forall in H3. specialize (H3 _ Hin). simpl in H3.
   apply orb_prop in H3. destruct H3 as [H3|H3].
   - (* implicit entries are never values *)
@@ -229,10 +229,10 @@ Proof.
   - apply pure_true. exact H3.
 Qed.
 
-Theorem vm_core_pure : forall f, In f vm_core -> effect_of f = [].
+Theorem vm_core_pure : forall c f, sandboxed c = true -> In f vm_core -> effect_of c f = [].
 Proof.
-  intros f Hin.
-  destruct (tables_ok_parts Bare tables_ok_bare) as [_ [_ [_ H4]]].
+  intros c f Hs Hin.
+  destruct (tables_ok_parts c (tables_ok_sandboxed c Hs)) as [_ [_ [_ H4]]].
   rewrite forallb_forall in H4. apply pure_true. exact (H4 _ Hin).
 Qed.
 
@@ -250,7 +250,7 @@ Proof.
 Qed.
 
 Lemma closure_pure_except : forall c f, sandboxed c = true ->
-  In f (closure c) -> effect_of f <> [] -> In f (leak_fns c).
+  In f (closure c) -> effect_of c f <> [] -> In f (leak_fns c).
 Proof.
   intros c f Hs Hin He. unfold closure in Hin.
   apply in_app_or in Hin. destruct Hin as [Hin|Hin].
@@ -261,42 +261,42 @@ Proof.
     exact (in_fns_named n k f _ Hb Hk).
   - apply in_app_or in Hin. destruct Hin as [Hin|Hin].
     + apply in_map_iff in Hin. destruct Hin as [[n f'] [Hf Hin]]. simpl in Hf. subst f'.
-      pose proof (special_forms_pure_except n f Hin He) as Hn.
+      pose proof (special_forms_pure_except c n f Hs Hin He) as Hn.
       unfold leak_fns. apply in_or_app. right. apply in_flat_map. exists n. split; [exact Hn|].
       unfold specials_named. apply in_flat_map. exists (n, f). split; [exact Hin|].
       simpl. rewrite String.eqb_refl. left. reflexivity.
     + apply in_app_or in Hin. destruct Hin as [Hin|Hin].
       * exfalso. apply He. unfold implicit_fns in Hin. apply in_prim_fns in Hin.
-        destruct Hin as [n [k [Hb _]]]. exact (implicit_prims_pure n k f Hb).
-      * exfalso. apply He. exact (vm_core_pure f Hin).
+        destruct Hin as [n [k [Hb _]]]. exact (implicit_prims_pure c n k f Hs Hb).
+      * exfalso. apply He. exact (vm_core_pure c f Hs Hin).
 Qed.
 
 (* Whatever effectful primitive a program reaches in a sandboxed configuration is one of the known leaks. *)
 Theorem sandbox_no_effect_except : forall c p f, sandboxed c = true ->
-  In f (run_abs c p) -> effect_of f <> [] -> In f (leak_fns c).
+  In f (run_abs c p) -> effect_of c f <> [] -> In f (leak_fns c).
 Proof.
   intros c p f Hs Hin He. apply (closure_pure_except c f Hs); [|exact He].
   exact (capability_closed c p f Hin).
 Qed.
 
-Lemma effect_dec : forall f, {effect_of f = []} + {effect_of f <> []}.
-Proof. intros f. destruct (effect_of f); [left; reflexivity | right; discriminate]. Qed.
+Lemma effect_dec : forall c f, {effect_of c f = []} + {effect_of c f <> []}.
+Proof. intros c f. destruct (effect_of c f); [left; reflexivity | right; discriminate]. Qed.
 
 (* A program that avoids the known leaks has no effect at all. *)
 Theorem sandbox_no_effect : forall c p, sandboxed c = true ->
-  (forall f, In f (leak_fns c) -> ~ In f (run_abs c p)) -> effects_of (run_abs c p) = [].
+  (forall f, In f (leak_fns c) -> ~ In f (run_abs c p)) -> effects_of c (run_abs c p) = [].
 Proof.
   intros c p Hs Havoid. unfold effects_of.
-  assert (H : forall l, (forall f, In f l -> effect_of f = []) -> flat_map effect_of l = []).
+  assert (H : forall l, (forall f, In f l -> effect_of c f = []) -> flat_map (effect_of c) l = []).
   { induction l as [|x xs IH]; intros Hl; simpl; [reflexivity|].
     rewrite (Hl x (or_introl eq_refl)). simpl. apply IH. intros f Hf. apply Hl. right. exact Hf. }
-  apply H. intros f Hf. destruct (effect_dec f) as [E|E]; [exact E|].
+  apply H. intros f Hf. destruct (effect_dec c f) as [E|E]; [exact E|].
   exfalso. exact (Havoid f (sandbox_no_effect_except c p f Hs Hf E) Hf).
 Qed.
 
 (* When a configuration has no known leak left and its tables are pure, no program has any effect. *)
 Theorem sandbox_no_effect_when_pure : forall c p, sandboxed c = true ->
-  leak_fns c = [] -> effects_of (run_abs c p) = [].
+  leak_fns c = [] -> effects_of c (run_abs c p) = [].
 Proof.
   intros c p Hs Hl. apply (sandbox_no_effect c p Hs). intros f Hf. rewrite Hl in Hf. destruct Hf.
 Qed.
